@@ -34,6 +34,8 @@ def main(argv):
     if "--checks" in argv:
         checks = argv[argv.index("--checks") + 1].split(",")
     wt = f"/tmp/wt_{prop}"
+    if "--wt" in argv:
+        wt = argv[argv.index("--wt") + 1]
     src = f"{wt}/_mutants/{name}"
     env = dict(os.environ, PYTHONPATH=wt, OMP_NUM_THREADS="1", MKL_NUM_THREADS="1")
     meta = {"id": f"{prop}-{name}", "breaks_property": prop, "worktree": wt, "confirmed_at": time.strftime("%Y-%m-%d %H:%M:%S")}
